@@ -42,7 +42,7 @@ FIELDS = ("job_name", "job_id", "event_type", "event_id", "start_timestamp",
 
 
 # ---- running the real code -----------------------------------------------
-def run_real(docs, mapping, per_line):
+def run_real(docs, mapping, per_line, raw_unicode=False):
     from tel2puml.otel_to_pv.data_sources.json_data_source.json_config import (
         JSONDataSourceConfig, OTelFieldMapping)
     from tel2puml.otel_to_pv.data_sources.json_data_source.json_datasource \
@@ -52,15 +52,18 @@ def run_real(docs, mapping, per_line):
         fm = OTelFieldMapping(**mapping)
         if per_line:
             path = os.path.join(d, "all.json")
-            with open(path, "w") as f:
+            with open(path, "w", encoding="utf-8") as f:
                 for doc in docs:
-                    f.write(json.dumps(doc) + "\n")
+                    f.write(json.dumps(doc, ensure_ascii=not raw_unicode)
+                            + "\n")
             cfg = JSONDataSourceConfig(filepath=path, dirpath=None,
                                        json_per_line=True, field_mapping=fm)
         else:
             for i, doc in enumerate(docs):
-                with open(os.path.join(d, f"doc{i}.json"), "w") as f:
-                    json.dump(doc, f, indent=(None if i % 2 else 2))
+                with open(os.path.join(d, f"doc{i}.json"), "w",
+                          encoding="utf-8") as f:
+                    json.dump(doc, f, indent=(None if i % 2 else 2),
+                              ensure_ascii=not raw_unicode)
             cfg = JSONDataSourceConfig(filepath=None, dirpath=d,
                                        json_per_line=False, field_mapping=fm)
         src = JSONDataSource(cfg)
@@ -94,7 +97,8 @@ def check_case(case):
     for per_line in (False, True):
         label = "per-line mode" if per_line else "whole-file mode"
         try:
-            got = run_real(docs, mapping, per_line)
+            got = run_real(docs, mapping, per_line,
+                           bool(case.get("raw_unicode")))
         except Exception as e:
             raise Violation(f"{label}: JSONDataSource raised "
                             f"{type(e).__name__}: {str(e)[:400]}")
@@ -141,6 +145,16 @@ def classify(case):
         classes.append("valid>=2")
     if len(case["docs"]) > 1:
         classes.append("multi_doc")
+    if case.get("raw_unicode"):
+        classes.append("files_without_unicode_escapes")
+    seen = {}
+    for spec in case["mapping"].values():
+        for comp in refjq.normalise(spec):
+            for kp, kv, vp in comp:
+                if kv is not None:
+                    seen.setdefault((kp, kv), set()).add(vp)
+    if any(len(v) > 1 for v in seen.values()):
+        classes.append("same_key_looked_up_through_two_value_paths")
     nt = len(want) >= 2 and (n_invalid >= 1 or uses_lookup or uses_fallback)
     return nt, classes
 
@@ -157,7 +171,8 @@ def case_strategy():
     from hypothesis import strategies as st
 
     ident = st.sampled_from(["a", "b", "svc", "x1", "GET", "200", "wf one",
-                             "t-1", "Z"])
+                             "t-1", "Z", "l\u2028s", "p\u2029s", "n\u0085l",
+                             "\u00e9t\u00e9"])
     tstamp = st.one_of(
         st.integers(BIG, BIG + 10**6),
         st.integers(BIG, BIG + 10**6).map(str),
@@ -174,6 +189,9 @@ def case_strategy():
                 out.append({"key": k})
             elif shape == 1:
                 out.append({"key": k, "value": {"Value": {}}})
+            elif shape == 2:
+                out.append({"key": k, "value": {"Value": {
+                    "IntValue": draw(st.integers(0, 599))}}})
             else:
                 out.append({"key": k, "value": {"Value": {
                     "StringValue": draw(ident)}}})
@@ -268,11 +286,15 @@ def case_strategy():
             hdr = "meta" if lvl < 0 else HEADER_OBJ[names[lvl]]
             k = draw(st.sampled_from(["service.name", "ver", "absent"]))
             return (prefix(names, lvl) + hdr + ".attributes.[].key", k,
-                    "value.Value.StringValue")
+                    draw(st.sampled_from(["value.Value.StringValue",
+                                          "value.Value.StringValue",
+                                          "value.Value.IntValue"])))
         if r == 8:
             k = draw(st.sampled_from(["http.method", "http.response"]))
             return (prefix(names, depth - 1) + "attributes.[].key", k,
-                    "value.Value.StringValue")
+                    draw(st.sampled_from(["value.Value.StringValue",
+                                          "value.Value.StringValue",
+                                          "value.Value.IntValue"])))
         return (prefix(names, depth - 1) + "not_here", None, None)
 
     NATURAL = {"job_name": "name", "job_id": "trace_id", "event_type": "name",
@@ -336,7 +358,10 @@ def case_strategy():
             else:
                 mapping[f] = {"key_paths": [pre + NATURAL[f]],
                               "value_type": "string"}
-        return {"depth": depth, "docs": docs, "mapping": mapping}
+        case = {"depth": depth, "docs": docs, "mapping": mapping}
+        if draw(st.integers(0, 3)) == 0:
+            case["raw_unicode"] = True      # files written without \u escapes
+        return case
 
     return build()
 
